@@ -357,13 +357,16 @@ class SimulationBuilder:
         persons_group_assignment,
         roles: Iterable[str],
     ) -> None:
-        # Maps group's identifiers to a 0-based integer range, for indexing into members_roles (see PR#876)
-        group_sorted_indices = numpy.unique(
-            persons_group_assignment,
-            return_inverse=True,
-        )[1]
-        group_population.members_entity_id = numpy.argsort(group_population.ids)[
-            group_sorted_indices
+        # Maps each person's group identifier to the position of that group among
+        # the declared ones (see PR#876); a declared group may have no member.
+        group_ids = numpy.asarray(group_population.ids)
+        group_order = numpy.argsort(group_ids)
+        group_population.members_entity_id = group_order[
+            numpy.searchsorted(
+                group_ids,
+                numpy.asarray(persons_group_assignment),
+                sorter=group_order,
+            )
         ]
 
         flattened_roles = group_population.entity.flattened_roles
